@@ -14,7 +14,7 @@ def run(c):
     if c.replay:
         harness(c, 1, replay_ops=c.replay.get("replay_ops") or [])
     else:
-        harness(c, 12000 if c.thorough else 700)
+        harness(c, 12000 if c.thorough else 900)
 
     def search():
         c.seed += 1000
@@ -22,6 +22,7 @@ def run(c):
 
     return c.finish(
         rule="random scenarios: 1-4 recipients (ASCII, IDN, A-label, upper-case spellings), max_tries 1-4, atomic or per-recipient downstream, bounce route on/off, "
+        "plus the same queue on top of the REAL remote target talking to a scripted go-smtp server (SMTPUTF8 on/off, IDN/non-ASCII/upper-case recipients, RCPT 450/550, DATA 451/554 per attempt; ground truth = what the server holds); "
         "one fault plan per attempt (start / per-recipient / body / per-recipient body status / commit, each ok|temporary|permanent|unclassified, fault density 10-90%); "
         "the REAL queue (time wheel, spool files, DSN generator) runs each to quiescence against a scripted target; the whole call/commit/report trace is compared "
         "with the Lean model's trace; distinct = distinct scenarios",
